@@ -518,6 +518,11 @@ pub fn finish(
         serde_json::to_string_pretty(&ev).unwrap(),
     )
     .expect("cannot write evidence");
+    // evidence/<id>.json is rewritten by every run; a copy per tier keeps the last thorough run's
+    // coverage next to the last quick run's
+    let tdir = format!("{}/evidence/{}", root, tier.name());
+    let _ = std::fs::create_dir_all(&tdir);
+    let _ = std::fs::write(format!("{}/{}.json", tdir, prop), serde_json::to_string_pretty(&ev).unwrap());
     eprintln!(
         "{} {}: states={} transitions={} nontrivial={} unspecified={} outcome_classes={} unknown_violation_classes={} known_hit={} wall={:.1}s",
         prop,
